@@ -2901,6 +2901,11 @@ def optimize_until(expr: Expr, stage: core.OptimizerStage) -> Expr:
 
     # Simplify again
     expr = expr.simplify()
+    # Simplification rules may re-introduce abstract expressions (a Head or
+    # Tail pushed through an elementwise operation, for instance): lower them
+    # now, since graph construction lowers again and must not change the
+    # dependencies of fused groups behind their back
+    expr = expr.lower_completely()
     if stage == "simplified-physical":
         return expr
 
